@@ -613,7 +613,9 @@ PROPS["C16"]["claim"] += (" END TO END: generated_RetrieveSupportedCipherSuites_
 PROPS["C01"]["proofs"] = PROPS["C01"]["proofs"] + ["Bmc.Proofs.EndToEnd.HandshakeC01"]
 PROPS["C01"]["claim"] += (" END TO END (liveness / key agreement): hsRun_live, hsRun_against_spec_bmc, generated_newV2Session_live (Proofs/EndToEnd/HandshakeC01.lean) — against a BMC "
                           "whose three set-up exchanges end with what the specification's BMC sends (same password and K_G; it answers only the RAKP 3 code it expects), newV2Session AS "
-                          "TRANSLATED ON THIS RUN returns a session whose SIK, K1, K2 are the ones the BMC derives on its own from the fields it received.")
+                          "TRANSLATED ON THIS RUN returns a session whose SIK, K1, K2 are the ones the BMC derives on its own from the fields it received; generated_newV2Session_against_spec_bmc: the same with the "
+                          "specification's BMC written as response structs of the code's own types (typedO / typedR1 / typedR3) — no hypothesis about intermediate states is left, only: the suite the translated discovery "
+                          "determined is supported, the BMC is well-formed and holds the caller's password and K_G.")
 PROPS["C18"]["proofs"] = PROPS["C18"]["proofs"] + ["Bmc.Proofs.EndToEnd.MetricsC18"]
 PROPS["C18"]["claim"] += (" END TO END: generated_session_SendCommand_accounting, generated_sessionless_SendCommand_accounting (Proofs/EndToEnd/MetricsC18.lean) — the Prometheus calls of "
                           "SendCommand AS TRANSLATED ON THIS RUN, applied to any metric values, satisfy the per-command accounting laws (attempts +1 for this name only, failures +1 exactly "
